@@ -22,10 +22,11 @@ def run(ctx):
     henv, hdir = inmemlib.traced(ctx, "seq")
     vlib.go_run(ctx, binary, "TestSeq", dict({"VERIF_IN": inp, "VERIF_OUT": seq}, **henv), timeout=1500)
     # S3h: the same executions seen from inside: linearization-point traces of every in-memory collection (TraceInmem)
-    inmemlib.judge_driver(ctx, "C01", hdir, "TestSeq", max_collections=400 if quick else 4000)
+    inmemlib.judge_driver(ctx, "C01", hdir, "TestSeq", max_collections=1500 if quick else 6000)
     recs = vlib.read_ndjson(seq)
     traces = vlib.split_traces(recs)
     ctx.sample({"trace_line": recs[1]})
+    ctx.cov["injected_backing_store_failures"] = len([x for x in recs if x.get("err") == "verif: injected backing store failure"])
 
     # S3a: sequential traces judged by TraceStore
     mism, consumed, r = vlib.validate(ctx, "TraceStore", "TraceStore.cfg", seq, timeout=1500)
